@@ -27,7 +27,15 @@ func lockModel(newState string, needAddr bool) model {
 	return model{apply: func(fv *FnVerifier, c *ssa.CallCommon, args []Val, st *State, pos token.Pos, name string) Val {
 		if args[0].Addr != nil {
 			k := fv.lockKeyOfAddr(args[0].Addr)
+			was := lockTerm(st, k)
+			_ = was
+			if newState == "0" && needAddr {
+				fv.lockInvariant(st, args[0].Addr, false, pos) // prove the monitor invariant before releasing the write lock
+			}
 			st.locks[k] = newState
+			if newState != "0" {
+				fv.lockInvariant(st, args[0].Addr, true, pos) // monitor invariant holds when the lock is acquired
+			}
 		}
 		return Val{}
 	}, writes: noWrites}
@@ -66,7 +74,7 @@ func init() {
 		"(*sync.RWMutex).Lock":    lockModel("2", true),
 		"(*sync.RWMutex).Unlock":  lockModel("0", true),
 		"(*sync.RWMutex).RLock":   lockModel("1", true),
-		"(*sync.RWMutex).RUnlock": lockModel("0", true),
+		"(*sync.RWMutex).RUnlock": lockModel("0", false),
 		"(*sync.Mutex).Lock":      lockModel("2", true),
 		"(*sync.Mutex).Unlock":    lockModel("0", true),
 
